@@ -14,7 +14,7 @@ import json
 import os
 
 from . import common, explore, srv, srv_alpha, srv_check, tlc
-from . import cli, cli_alpha, simple, threads
+from . import cli, cli_alpha, simple, threads, adisc
 from .tla_lit import lit
 
 BASE_INV = ['TypeOK']
@@ -30,6 +30,7 @@ PLAN = {
         'inv': ['ConnAgree', 'C04_ConnectOutcome', 'C04_DisconnectHandler',
                 'C04_DisconnectOnce', 'C03_Recipients',
                 'C03_NoGhostsOfTheDeparted'],
+        'also': ['C04s'],
         'quick': ['lifecycle_nc_fn_l', 'lifecycle_ac_class_s'],
         'thorough': [k for k in srv_alpha.CONFIGS
                      if k.startswith('lifecycle_') and 'quick' not in k],
@@ -83,6 +84,29 @@ PLAN.update({
                   'thr_rxdisc+lost_al_2ns', 'thr_api+api_al',
                   'thr_api_other+lost_al_2ns'],
         'thorough': list(threads.CONFIGS),
+    },
+    'C04s': {
+        'fam': 'adisc',
+        'inv': ['C20_HandlerAtMostOnce', 'C20_HandlerExactlyOnce',
+                'C20_NoThreadRaises', 'C20_CleanAfterwards'],
+        'quick': ['athr_api+rxdisc_al', 'athr_api+lost_by',
+                  'athr_rxdisc+lost_al_2ns', 'athr_api+api_al',
+                  'athr_api+rxdisc+lost_al', 'athr_api_other+lost_al_2ns'],
+        'thorough': ['a' + k for k in threads.CONFIGS],
+    },
+    'C14': {
+        'inv': ['ConnAgree'],
+        'also': ['C14c'],
+        'quick': ['acks_quick', 'lifecycle_quick_ac'],
+        'thorough': ['rooms_quick', 'acks_quick', 'lifecycle_quick_ac',
+                     'events_quick', 'events_quick_bg', 'sessions_quick',
+                     'hostile_quick', 'residue_quick', 'lifecycle_nc_fn_l'],
+    },
+    'C14c': {
+        'fam': 'client',
+        'inv': [],
+        'quick': ['cstate_quick', 'cacks_quick'],
+        'thorough': ['cstate_fn', 'cacks_fn', 'cacks_class'],
     },
     'C19': {
         'fam': 'simple',
@@ -140,7 +164,8 @@ class _ThreadsAlpha:
 def _threads_consts(cfg):
     return {'Ops': list(cfg['ops']), 'TwoNs': bool(cfg.get('two_ns')),
             'Bystander': bool(cfg.get('bystander')),
-            'Dev': set(cfg.get('dev', []))}
+            'Dev': set(cfg.get('dev', [])),
+            'YieldAt': set(cfg.get('yield_at', threads.ALL_LABELS))}
 
 
 FAMILIES = {
@@ -151,6 +176,14 @@ FAMILIES = {
                     alpha=_ThreadsAlpha, consts=_threads_consts,
                     adapter=lambda c: threads.ThreadsAdapter(c),
                     no_alphabet=True, variants=('threaded',), base_inv=[]),
+    'adisc': dict(spec='SrvDisconnectThreads',
+                  graph='SrvDisconnectThreadsGraph',
+                  configs={'a' + k: dict(v, alpha='sched', dev=[],
+                                         yield_at=threads.ASYNC_LABELS)
+                           for k, v in threads.CONFIGS.items()},
+                  alpha=_ThreadsAlpha, consts=_threads_consts,
+                  adapter=lambda c: adisc.AsyncDiscAdapter(c),
+                  no_alphabet=True, variants=('asyncio',), base_inv=[]),
     'simple': dict(spec='SimpleClient', graph='SimpleClientGraph',
                    configs={k: dict(v, alpha='sched', dev=['D9'])
                             for k, v in simple.CONFIGS.items()},
@@ -240,10 +273,11 @@ def _edge_no(text):
 
 def check_config(v, name, invariants, dev, variants=None):
     """One configuration, both implementations.  Returns True when clean."""
-    fam = _fam(v.pid)
+    planid = getattr(v, 'planid', v.pid)
+    fam = _fam(planid)
     variants = variants or fam.get('variants', ('threaded', 'asyncio'))
     base_inv = fam.get('base_inv', BASE_INV)
-    fam_name = PLAN[v.pid].get('fam', 'server')
+    fam_name = PLAN[planid].get('fam', 'server')
     cfg = _cfg_for(fam, name, dev)
     wd = os.path.join(common.WORK, v.pid, name)
     os.makedirs(wd, exist_ok=True)
@@ -268,6 +302,23 @@ def check_config(v, name, invariants, dev, variants=None):
                   '(depth %d, %.1fs)' % (name, var, len(g['nodes']),
                                          len(g['edges']), g['depth'],
                                          g['wall']))
+        # direct differential (C14): the two implementation graphs must be
+        # identical after renaming ids by order of appearance
+        if len(graphs) == 2:
+            (ga, _, _), (gb, _, _) = graphs['threaded'], graphs['asyncio']
+            if explore.canon(ga['nodes']) != explore.canon(gb['nodes']) or \
+                    explore.canon(ga['edges']) != explore.canon(gb['edges']):
+                diff = None
+                for ea, eb in zip(ga['edges'], gb['edges']):
+                    if explore.canon(ea) != explore.canon(eb):
+                        diff = {'threaded': ea, 'asyncio': eb,
+                                'path': explore.path_actions(
+                                    ga, alphabet, ea['src'])}
+                        break
+                v.differential = diff or {'sizes': [len(ga['edges']),
+                                                    len(gb['edges'])]}
+            v.cov.setdefault('differential_pairs', 0)
+            v.cov['differential_pairs'] += 1
         r1 = f1.result()
         r3 = f3.result()
         v.log('  [%s] G1 spec: %d distinct states (with ghosts), %d '
@@ -327,12 +378,28 @@ def check_config(v, name, invariants, dev, variants=None):
 
 
 def run(pid, tier):
-    plan = PLAN[pid]
     v = common.Verdict(pid, tier)
+    _run_plan(v, pid, pid, tier)
+    for extra in PLAN[pid].get('also', []):
+        _run_plan(v, pid, extra, tier)
+    v.cov['rule'] = ('every action of the configuration alphabet (or every '
+                     'scheduler choice) from every reachable abstract state '
+                     'of the real threaded and asyncio classes; distinct = '
+                     'distinct abstract states')
+    v.cov['evaluations'] = v.cov['traces_validated_against_impl']
+    v.cov['distinct_nontrivial'] = sum(r['impl_states']
+                                       for r in v.cov['runs'])
+    return v.finish()
+
+
+def _run_plan(v, pid, planid, tier):
+    plan = PLAN[planid]
+    v.planid = planid
+    v.differential = None
     known = common.known_for(pid) + [
         k for k in common.known_findings()
         if k['status'] == 'known' and k.get('deviation') in
-        _devs_needed(pid)]
+        _devs_needed(planid)]
     devs = sorted({k['deviation'] for k in known})
     v.assumptions = [
         'python-engineio 4.14 server side is real (sockets injected, no '
@@ -341,9 +408,13 @@ def run(pid, tier):
         'coverage.runs',
         'harness projection / token maps (cross-checked by G3)']
     for name in plan[tier]:
-        fam = _fam(pid)
+        fam = _fam(planid)
         used = [d for d in devs if d in fam['configs'][name].get('dev', [])]
         res = check_config(v, name, plan['inv'], used)
+        if pid == 'C14' and res is True and v.differential:
+            v.violation('the threaded and the asyncio class differ on the '
+                        'same history (config %s)' % name, v.differential)
+            v.differential = None
         if isinstance(res, tuple):
             # an implementation edge is not an edge of the spec-with-known-
             # deviations.  Before calling it a violation, see whether the
@@ -354,6 +425,7 @@ def run(pid, tier):
             for sub in _subsets(used):
                 v.log('  retrying %s with deviations %s' % (name, sub))
                 v2 = common.Verdict(pid, tier)
+                v2.planid = planid
                 r = check_config(v2, name, plan['inv'], sub)
                 if r is True:
                     ok = True
@@ -395,13 +467,6 @@ def run(pid, tier):
                     else:
                         v.log('  (known finding %s is not exercised by '
                               'configuration %s)' % (d, name))
-    v.cov['rule'] = ('every action of the configuration alphabet from every '
-                     'reachable abstract state of the real threaded and asyncio '
-                     'classes; distinct = distinct abstract states')
-    v.cov['evaluations'] = v.cov['traces_validated_against_impl']
-    v.cov['distinct_nontrivial'] = sum(r['impl_states']
-                                       for r in v.cov['runs'])
-    return v.finish()
 
 
 def _devs_needed(pid):
